@@ -44,6 +44,10 @@ def generate(rng, tier, shard, nshards):
                                     "epseps" if any(r[1] == r[2] == "" for r in A["arcs"] + B["arcs"]) else "",
                                     "cyclic" if not acyc else ""] if x) or "plain"
         st, st2 = rng.choice(aops.STATE_STYLES), rng.choice(aops.STATE_STYLES)
+        if i % 4 == 3:              # transducers entered through set_arc (the alphabets are maintained there, too)
+            A["ctor"] = "set"
+            B["ctor"] = "set"
+            feat = feat + "+built-with-set_arc"
         yield event("tcompose", {"sr": srn, "A": A, "B": B, "sigmaA": sig, "sigmaM": sig, "sigmaB": sig, "L": L,
                                       "style": st, "style2": st2}, site="FST.__matmul__", feat=feat, timeout=60)
         T = A
